@@ -69,7 +69,7 @@ type Contract struct {
 	Assumed  bool
 	NoBody   bool
 	Inline   bool
-	Split    bool // path-sensitive execution (no state merging at joins)
+	Split    bool                // path-sensitive execution (no state merging at joins)
 	Dispatch map[string][]string // call site -> candidate methods (Type.Method) for an interface call
 	Use      map[string]string   // call site -> key of the (assumed) contract to apply at this interface call instead of the generic one
 	File     string
@@ -85,9 +85,9 @@ type SpecFn struct {
 }
 
 type GhostVar struct {
-	Name  string
-	Type  string
-	Field bool
+	Name      string
+	Type      string
+	Field     bool
 	Immutable bool
 }
 
